@@ -6,8 +6,9 @@ import (
 )
 
 // Cross-table plan ("pair"): in a whole font, a word that holds a glyph id (or a glyph count)
-// is set to numGlyphs, numGlyphs+1 or 0xFFFF, combined with a trigger that switches the
-// reader's fall-backs on (OS/2 xHeight and capHeight zeroed; OS/2 table removed).  The words
+// is set to numGlyphs, numGlyphs+1, 0xFFFF, 0, 1 or numGlyphs-1, combined with a trigger that switches the
+// reader's fall-backs on (OS/2 xHeight and capHeight zeroed; one of OS/2, maxp, hhea, hmtx, post, head,
+// name removed).  The words
 // are found by walking the bytes of the seed (never by asking go-sfnt).
 
 // GidWord is the offset of a glyph-id-valued word; the stored word is (gid - Base) mod 2^16
@@ -19,9 +20,13 @@ type GidWord struct {
 
 // NumGidValues and NumTriggers are the constants of the same name in spec/Decoder.tla.
 const (
-	NumGidValues = 3
-	NumTriggers  = 3
+	NumGidValues = 6
+	NumTriggers  = 9
 )
+
+// triggerDrops[t-2] is the table removed by trigger t >= 2: sfnt.Read falls back to other tables (or to
+// defaults) for each of them, so a count in one of the remaining tables becomes the only witness.
+var triggerDrops = []string{"OS/2", "maxp", "hhea", "hmtx", "post", "head", "name"}
 
 type sfntDir struct {
 	b    []byte
@@ -213,7 +218,10 @@ func applyPair(font []byte, idx int) ([]byte, error) {
 		return nil, fmt.Errorf("pair index %d out of plan", idx)
 	}
 	out := append([]byte(nil), font...)
-	val := []int{n, n + 1, 0xFFFF}[vi]
+	val := []int{n, n + 1, 0xFFFF, 0, 1, n - 1}[vi]
+	if val < 0 {
+		val = 0
+	}
 	binary.BigEndian.PutUint16(out[words[wi].Off:], uint16(val-words[wi].Base))
 	d := parseDir(font)
 	switch ti {
@@ -223,9 +231,10 @@ func applyPair(font []byte, idx int) ([]byte, error) {
 				out[t[0]+k] = 0
 			}
 		}
-	case 2: // no OS/2 table at all
+	case 2, 3, 4, 5, 6, 7, 8: // one of the tables the reader has a fall-back for is absent altogether
+		drop := triggerDrops[ti-2]
 		for i, tag := range d.tags {
-			if tag == "OS/2" {
+			if tag == drop {
 				return dropTable(out, i)
 			}
 		}
